@@ -71,7 +71,7 @@ fn pipelines() -> Vec<Pl> {
         Pl { name: "member-order-and-function-spellings", args: vec!["--select=.o=o", "--select=(push [] .o .n)=po", "--select=(set \"q\" .n (push [] (get_variable \"q\") (: \"q\") :q))=z", "--select=(define \"d\" .s (push [] (@ \"d\") @d))=w"], selections: true, cache1: false },
         // --set variables whose expression reads `.` but has a value on the empty input (evaluated once, before any record);
         // and/or whose deciding argument differs from record to record
-        Pl { name: "preset-with-fall-back-and-logic", args: vec!["--set=dflt=(default .n 100)", "--set=kind=(stringify .)", "--select=:dflt=d", "--select=:kind=k", "--select=(and (< .n 2) (= .p \"^a+\"))=an", "--select=(or (> .n 1.7) (= .p \"[\"))=orr", "--filter=(!= :dflt .n)"], selections: true, cache1: false },
+        Pl { name: "preset-with-fall-back-and-logic", args: vec!["--set=dflt=(default .n 100)", "--set=kind=(stringify .)", "--select=:dflt=d", "--select=:kind=k", "--select=(and (< .n 2) (= .p \"^a+\"))=an", "--select=(or (> .n 1.7) (= .p \"[\"))=orr", "--filter=(default (!= :dflt .n) true)"], selections: true, cache1: false },
         // functions that give up half way (a list whose second element is of the wrong type, a group key that is not a
         // string for a later element) next to records for which the same call succeeds; group order inside a record
         Pl { name: "functions-that-give-up-half-way", args: vec!["--select=(join (push [] .s .n .s) \"-\")=j", "--select=(group_by .l (? (> . 2) . \"le2\"))=g", "--select=(keys (group_by (push .l 9 8 7 6 5) (stringify .)))=k", "--select=(sum (push [] .n .s))=sm", "--select=(concat .s .n .s)=c"], selections: true, cache1: false },
